@@ -38,7 +38,7 @@ theorem inner_ok (stmts : List Stmt) (ops : List Op) (hlen : ops.length + 1 ≤ 
     · rw [if_neg hi]
       exact ⟨i, gs, go, rfl, Nat.le_refl _, Or.inr rfl, Nat.le_refl _⟩
 
-theorem mkGroup_ok (gs : List Stmt) (go : List Op) (h : 1 ≤ gs.length) : ∃ g, mkGroup gs go = .ok g := by
+theorem mkGroup_ok (gs : List Stmt) (go : List Op) (_h : 1 ≤ gs.length) : ∃ g, mkGroup gs go = .ok g := by
   unfold mkGroup
   by_cases h1 : gs.length = 1
   · rw [if_pos h1, idx_lt gs 0 (by omega)]; exact ⟨_, rfl⟩
